@@ -5,7 +5,9 @@ Tie: correspondence between the Lean model (`Atomman.dvect`, `Atomman.dmag2` and
 exact inputs.  Exact comparison on the dyadic grid, derived tolerance plus the model's tie margin
 elsewhere.  Search: the property's own clauses on the real code with exact integer/Fraction
 arithmetic (27-candidate minimality, image form, dmag = |dvect|, displacement atom by atom, true
-nearest image by lattice enumeration inside the radius of `search_radius_images`).
+nearest image by lattice enumeration inside the radius of `search_radius_images`), evaluated for every
+broadcast shape and input form, over many length scales, after histories of in-place changes of the
+Box / System objects (object level and module level), plus the refusal clauses.
 """
 from __future__ import annotations
 
@@ -26,6 +28,11 @@ THEOREMS = [
     'C02.dvectArr_one_to_many', 'C02.dvectArr_many_to_one', 'C02.dvectArr_many_to_many',
     'C02.dvectArr_none_iff', 'C02.dmag2Arr_eq', 'C02.displacement_atomwise',
     'C02.refBox_final', 'C02.refBox_initial', 'C02.refBox_none',
+    'C02.dvectArr_rows', 'C02.sysDvect_rows', 'C02.sysDmag2_eq', 'C02.displacement_refuses',
+    'C02.dvect_scale', 'C02.dmag2_scale',
+    'C02.World.sysDvect_current', 'C02.World.sysDvect_history', 'C02.World.pbcEdit_read',
+    'C02.World.boxVects_shared', 'C02.World.sysBoxSet_shared', 'C02.World.arrDmag2_history',
+    'C02.World.disp_history',
 ]
 PARTIAL = {}
 RULE = ('cells: diagonal, rotated/left-handed mutually orthogonal, LAMMPS-triclinic, general 3x3 (det != 0), strongly '
@@ -33,14 +40,24 @@ RULE = ('cells: diagonal, rotated/left-handed mutually orthogonal, LAMMPS-tricli
         'faces/edges/corners, outside) so that every Cartesian input is a multiple of 1/64 below 2^12 (exact regime), '
         'or random doubles incl. near-tie pairs (tolerance regime); shapes (1,1) (1,m) (m,1) (m,m), mismatched and '
         'empty; list/tuple/array/flat input forms; System selectors int/negative/out-of-range int, slices, index '
-        'lists/arrays, explicit positions; displacement with initial/final/None/default/invalid reference. '
+        'lists/arrays, int tuples, integer (k,3) arrays, explicit positions; displacement with initial/final/None/default/'
+        'invalid reference and unequal atom counts (1 vs N included). Every exact case is multiplied by 2^k, k in '
+        '-40..40 (exact), every tolerance case by 10^u, u in -12..12. Histories: 1-3 Box objects, 1-3 Systems (several may '
+        'hold the same Box), 8-16 steps mixing in-place changes (Box.vects=, Box.origin=, Box.set in its vects / avect / '
+        'lengths / hi-lo forms, System.box_set with and without scale, System.pbc=, System.pbc[k]=, atoms.pos[i]=, '
+        'atoms.pos[:]=, atoms.pos=, atoms_prop) with queries (atomman.dvect/dmag with the Box object, System.dvect/dmag, '
+        'displacement, state read-back). '
         'distinct = distinct canonical case; non-trivial = at least one periodic direction and a non-zero separation')
 ASSUMPTIONS = [
-    'IEEE double arithmetic of the compiled loop is exact on multiples of 1/64 below 2^12 (products and sums stay '
-    'below 2^53 ulps): there the comparison is bit for bit, tie order included',
+    'IEEE double arithmetic of the compiled loop is exact on multiples of 2^k/64 below 2^k * 2^12, -40 <= k <= 40 '
+    '(products and sums stay below 2^53 ulps, no over/underflow): there the comparison is bit for bit, tie order included',
     'elsewhere every component of a candidate carries an absolute rounding error of at most 2^-48 * S '
-    '(S = largest input magnitude); cases whose tie margin (computed exactly by the model) is below the '
+    '(S = largest input magnitude, no floor); cases whose tie margin (computed exactly by the model) is below the '
     'corresponding bound on squared lengths are exempt from the vector comparison, as are no others',
+    'Box.vects= zeroes entries below 1e-9 of the largest one: generated cells keep every non-zero entry above 1e-6 '
+    'of the largest (exact regime: >= 1/320), so the clean-up never acts',
+    'System.box_set(scale=True) recomputes the positions in floating point: the read-back is compared with the '
+    'exact value within 2^-44 * (|p-o| |recip| |vects\'| + |o\'| + |p\'|) and the positions are then re-set on the grid',
     'numpy `** 0.5` on a float64 array returns sqrt within 2 ulp',
     'numpy broadcasting / fancy indexing of atoms.pos is as documented (modelled by `select`/`broadcast`)',
 ]
@@ -101,6 +118,27 @@ def gen_pbc(rng):
     return [rng.random() < 0.6 for _ in range(3)]
 
 
+def gen_scale_exp(rng):
+    """exponent k of the common factor 2^k (multiplying by a power of two is exact)."""
+    r = rng.random()
+    if r < 0.35:
+        return 0
+    if r < 0.55:
+        return rng.choice([-40, -36, -30, -24, -21, -20, 20, 24, 30, 36, 40])
+    return rng.randint(-40, 40)
+
+
+def _sc(x, f):
+    if isinstance(x, (list, tuple)):
+        return [_sc(y, f) for y in x]
+    return x * f
+
+
+def gen_cell_scaled(rng, kind, f):
+    v, o = gen_cell(rng, kind)
+    return _sc(v, f), _sc(o, f)
+
+
 def rel_to_cart(s, v, o):
     return [s[0] * v[0][j] + s[1] * v[1][j] + s[2] * v[2][j] + o[j] for j in range(3)]
 
@@ -120,6 +158,7 @@ def gen_point(rng, v, o, where=None):
 def gen_float_cell(rng):
     kind = rng.choice(['diag', 'lammps', 'general'])
     u = lambda lo, hi: rng.uniform(lo, hi)
+    g = 1.0 if rng.random() < 0.3 else 10.0 ** rng.uniform(-12, 12)      # length scale (angstrom cell in metres ...)
     while True:
         if kind == 'diag':
             v = [[u(1, 20), 0.0, 0.0], [0.0, u(1, 20), 0.0], [0.0, 0.0, u(1, 20)]]
@@ -128,8 +167,9 @@ def gen_float_cell(rng):
             v = [[lx, 0.0, 0.0], [u(-.5, .5) * lx, ly, 0.0], [u(-.5, .5) * lx, u(-.5, .5) * ly, lz]]
         else:
             v = [[u(-10, 10) for _ in range(3)] for _ in range(3)]
-        if abs(_det3(v)) > 1.0:
-            return v, [u(-5, 5) for _ in range(3)]
+        big = max(abs(x) for r in v for x in r)
+        if abs(_det3(v)) > 1.0 and all(x == 0.0 or abs(x) > 1e-6 * big for r in v for x in r):
+            return [[x * g for x in r] for r in v], [u(-5, 5) * g for _ in range(3)]
 
 
 def _shape_pair(rng):
@@ -151,8 +191,8 @@ def _shape_pair(rng):
 
 def _form(rng, n):
     """how the positions are handed over (all denote the same numbers)."""
-    forms = ['array', 'array', 'list', 'tuple', 'strided', 'fortran', 'f32']
-    return rng.choice(forms + ['flat', 'flat'] if n == 1 else forms)
+    forms = ['array', 'array', 'list', 'tuple', 'strided', 'fortran', 'f32', 'int', 'pyint', 'readonly']
+    return rng.choice(forms + ['flat', 'flat', 'flatlist'] if n == 1 else forms)
 
 
 def _as_input(np, pts, form):
@@ -164,6 +204,17 @@ def _as_input(np, pts, form):
         return tuple(tuple(map(float, p)) for p in pts)
     if form == 'flat':
         return np.array(pts[0], dtype=float)
+    if form == 'flatlist':
+        return [float(x) for x in pts[0]]
+    if form == 'readonly':
+        a = np.array(pts, dtype=float).reshape(-1, 3)
+        a.flags.writeable = False
+        return a
+    if form in ('int', 'pyint'):      # integer dtype / python ints, only when that denotes the same numbers
+        a = np.array(pts, dtype=float).reshape(-1, 3)
+        if a.size and np.all(a == np.round(a)) and np.abs(a).max() < 2.0 ** 53:
+            return a.astype(np.int64) if form == 'int' else [[int(x) for x in p] for p in a.tolist()]
+        return a
     if form == 'strided':
         big = np.full((2 * len(pts), 6), 7.5)
         big[::2, ::2] = np.array(pts, dtype=float).reshape(-1, 3)
@@ -187,13 +238,16 @@ def _as_pbc(np, pbc, form):
 
 def gen_arr_case(rng, regime):
     if regime == 'exact':
-        v, o = gen_cell(rng, rng.choice(CELL_KINDS))
+        f = 2.0 ** gen_scale_exp(rng)
+        v, o = gen_cell_scaled(rng, rng.choice(CELL_KINDS), f)
         n0, n1 = _shape_pair(rng)
         pos0 = [gen_point(rng, v, o) for _ in range(n0)]
         pos1 = [gen_point(rng, v, o) for _ in range(n1)]
         if n0 and n1 and rng.random() < 0.15:          # coincident / exactly tied pairs
             pos1[0] = list(pos0[0]) if rng.random() < 0.3 else \
                 [pos0[0][j] + 0.5 * v[rng.randrange(3)][j] for j in range(3)]
+        if n0 and rng.random() < 0.1:                  # one side integer-valued (int dtype next to float dtype)
+            pos0 = [[float(round(x)) for x in p] for p in pos0]
     else:
         v, o = gen_float_cell(rng)
         n0, n1 = _shape_pair(rng)
@@ -208,11 +262,27 @@ def gen_arr_case(rng, regime):
             'form0': _form(rng, n0), 'form1': _form(rng, n1), 'pbcform': rng.choice(['tuple', 'list', 'array'])}
 
 
-def gen_sel(rng, natoms, v, o):
+def gen_sel(rng, natoms, v, o, ints_ok=True):
+    """ints_ok: integers may be taken as coordinates (only on the unscaled grid, where they are grid points)."""
     r = rng.random()
-    if r < 0.25:
+    if not ints_ok and 0.22 <= r < 0.33:
+        r = rng.random() * 0.22
+    if r < 0.22:
         i = rng.randint(-natoms, natoms - 1) if rng.random() < 0.85 else rng.choice([natoms, natoms + 2, -natoms - 1])
-        return ['I', i, rng.choice(['py', 'np'])]
+        return ['I', i, rng.choice(['py', 'np', 'np32', 'np0d'])]
+    if r < 0.27:                 # python tuple of ints: a multi-axis index
+        k = rng.choice([1, 2, 3, 3])
+        if k == 1 or not ints_ok:
+            return ['T', [rng.randint(-natoms, natoms - 1)]]
+        if k == 2:
+            return ['T', [rng.randint(-natoms, natoms - 1), rng.randint(-3, 2)]]
+        return ['T', [rng.randint(-9, 9) for _ in range(3)]]
+    if r < 0.33:                 # integer-valued positions handed over with an integer dtype
+        k = rng.choice([1, 1, 2, 3])
+        rows = [[rng.randint(-natoms, natoms - 1) for _ in range(3)] for _ in range(k)]
+        if rng.random() < 0.6:
+            rows[rng.randrange(k)][rng.randrange(3)] = rng.choice([natoms, natoms + 3, -natoms - 1, 40])
+        return ['Q', rows, rng.choice(['py', 'np'])]
     if r < 0.5:
         ch = lambda: None if rng.random() < 0.35 else rng.randint(-natoms - 3, natoms + 3)
         c = rng.choice([None, None, 1, 1, 2, 3, -1, -1, -2, -3, 0] if rng.random() < 0.25 else [None, 1, 2, -1, -2])
@@ -220,29 +290,31 @@ def gen_sel(rng, natoms, v, o):
     if r < 0.75:
         k = rng.choice([0, 1, 1, 2, 3, 3, 4, 5])
         l = [rng.randint(-natoms, natoms - 1) for _ in range(k)]
-        if k == 3 and rng.random() < 0.2:
+        if k == 3 and rng.random() < 0.2 and ints_ok:
             l[rng.randrange(3)] = natoms + rng.randint(0, 3)     # not an index -> taken as ONE position
         return ['L', l, rng.choice(['py', 'np'])]
     k = rng.choice([1, 1, 2, 3, natoms])
-    return ['P', [gen_point(rng, v, o) for _ in range(k)], _form(rng, k)]
+    form = _form(rng, k)
+    return ['P', [gen_point(rng, v, o) for _ in range(k)], 'array' if form in ('int', 'pyint') else form]
 
 
 def gen_sys_case(rng):
-    v, o = gen_cell(rng, rng.choice(CELL_KINDS))
+    k = gen_scale_exp(rng)
+    v, o = gen_cell_scaled(rng, rng.choice(CELL_KINDS), 2.0 ** k)
     natoms = rng.randint(1, 7)
     atoms = [gen_point(rng, v, o) for _ in range(natoms)]
     return {'op': 'sys', 'vects': v, 'origin': o, 'pbc': gen_pbc(rng), 'atoms': atoms,
-            'sel0': gen_sel(rng, natoms, v, o), 'sel1': gen_sel(rng, natoms, v, o)}
+            'sel0': gen_sel(rng, natoms, v, o, k == 0), 'sel1': gen_sel(rng, natoms, v, o, k == 0)}
 
 
 def gen_disp_case(rng):
-    v0, o0 = gen_cell(rng, rng.choice(CELL_KINDS))
-    v1, o1 = gen_cell(rng, rng.choice(CELL_KINDS))
+    f = 2.0 ** gen_scale_exp(rng)
+    v0, o0 = gen_cell_scaled(rng, rng.choice(CELL_KINDS), f)
+    v1, o1 = gen_cell_scaled(rng, rng.choice(CELL_KINDS), f)
     if rng.random() < 0.3:      # a strained copy of the same cell (the usual use of displacement)
         v1 = [[x * rng.choice([1.0, 1.125, 0.875]) for x in r] for r in v0]
     n0 = rng.randint(1, 6)
-    n1 = n0 if rng.random() < 0.92 else n0 + rng.choice([-1, 1, 2])
-    n1 = max(n1, 1)
+    n1 = n0 if rng.random() < 0.85 else rng.choice([1, n0 + 1, n0 + 2, max(n0 - 1, 1)])
     return {'op': 'disp', 'ref': rng.choice(['final', 'final', 'initial', 'initial', None, 'default', 'bogus', 'Final']),
             'sys0': {'vects': v0, 'origin': o0, 'pbc': gen_pbc(rng), 'pos': [gen_point(rng, v0, o0) for _ in range(n0)]},
             'sys1': {'vects': v1, 'origin': o1, 'pbc': gen_pbc(rng), 'pos': [gen_point(rng, v1, o1) for _ in range(n1)]}}
@@ -267,6 +339,10 @@ def _sel_wire(sel):
         return 'S ' + ' '.join('_' if x is None else str(x) for x in sel[1:4])
     if k == 'L':
         return f'L {len(sel[1])} ' + ' '.join(map(str, sel[1]))
+    if k == 'T':
+        return f'T {len(sel[1])} ' + ' '.join(map(str, sel[1]))
+    if k == 'Q':
+        return f'Q {len(sel[1])} ' + ' '.join(str(x) for r in sel[1] for x in r)
     return f'P {len(sel[1])} ' + _flat(sel[1])
 
 
@@ -316,7 +392,11 @@ def _mk_system(am, np, v, o, pbc, pos):
 def _py_sel(np, sel):
     k = sel[0]
     if k == 'I':
-        return int(sel[1]) if sel[2] == 'py' else np.int64(sel[1])
+        return {'py': int, 'np': np.int64, 'np32': np.int32, 'np0d': lambda i: np.array(i)}[sel[2]](sel[1])
+    if k == 'T':
+        return tuple(int(x) for x in sel[1])
+    if k == 'Q':
+        return [list(map(int, r)) for r in sel[1]] if sel[2] == 'py' else np.array(sel[1], dtype=np.int64).reshape(-1, 3)
     if k == 'S':
         return slice(sel[1], sel[2], sel[3])
     if k == 'L':
@@ -336,7 +416,11 @@ def impl_run(case):
             a = np.zeros((0, 3))
         if len(case['pos1']) == 0:
             b = np.zeros((0, 3))
-        return {'dvect': _call(lambda: am.dvect(a, b, box, pbc)), 'dmag': _call(lambda: am.dmag(a, b, box, pbc))}
+        keep = (np.array(a, dtype=float, copy=True), np.array(b, dtype=float, copy=True))
+        res = {'dvect': _call(lambda: am.dvect(a, b, box, pbc)), 'dmag': _call(lambda: am.dmag(a, b, box, pbc))}
+        if not (np.array_equal(np.array(a, dtype=float), keep[0]) and np.array_equal(np.array(b, dtype=float), keep[1])):
+            res['modified'] = ('ok', True)
+        return res
     if op == 'sys':
         s = _mk_system(am, np, case['vects'], case['origin'], case['pbc'], case['atoms'])
         a, b = _py_sel(np, case['sel0']), _py_sel(np, case['sel1'])
@@ -372,7 +456,7 @@ def _sqrt_ok(s, m2: Fraction):
 
 def _scale(case):
     vals = [abs(x) for r in case['vects'] for x in r] + [abs(x) for p in case['pos0'] + case['pos1'] for x in p]
-    return max(vals + [1.0])
+    return max(vals)
 
 
 def compare(case, impl, outs):
@@ -382,6 +466,8 @@ def compare(case, impl, outs):
     bad = []
     if op == 'arr':
         out = outs[0]
+        if 'modified' in impl:
+            bad.append(('arr:input-modified', 'the caller\'s position arrays were modified by am.dvect / am.dmag'))
         for name in ('dvect', 'dmag'):
             st, val = impl[name]
             if out.startswith('err:'):
@@ -491,14 +577,24 @@ def _public(case):
 
 
 def run_cases(ctx, cases, report=True):
-    lines, spans = [], []
-    for c in cases:
-        ls = lines_for(c)
+    lines, spans, inner = [], [], {}
+    for n, c in enumerate(cases):
+        if c['op'] == 'seq':
+            ls, inner[n] = history_lines(c)
+        else:
+            ls = lines_for(c)
         spans.append((len(lines), len(ls)))
         lines += ls
     outs = ctx.driver.ask_many(lines)
     nbad = 0
-    for c, (a, k) in zip(cases, spans):
+    for n, (c, (a, k)) in enumerate(zip(cases, spans)):
+        if c['op'] == 'seq':
+            ctx.stats.case('seq', lines[a:a + k], nontrivial=True, sample=_public(c))
+            for key, msg, stepno in compare_history(c, outs[a:a + k], inner[n]):
+                nbad += 1
+                if report:
+                    ctx.disagree(key, msg, {'case': _public(c), 'step': stepno})
+            continue
         impl = impl_run(c)
         o = outs[a:a + k]
         kind = c['op'] + (':' + c['regime'] if 'regime' in c else '')
@@ -509,6 +605,543 @@ def run_cases(ctx, cases, report=True):
                 ctx.disagree(key, msg, {'case': _public(c), 'lines': lines[a:a + k], 'model': o,
                                         'impl': {k2: (v[0], repr(v[1])[:400]) for k2, v in impl.items()}})
     return nbad
+
+
+
+# ----------------------------------------------------------------------------------------
+# histories: Box / System objects changed in place between queries
+# ----------------------------------------------------------------------------------------
+BOXSET_VIAS = ['vects', 'vects0', 'avect', 'avect0', 'lengths', 'hilos']
+
+
+def _inv_rows(V):
+    """rows of inverse(V)^T = reciprocal vectors, as Fractions."""
+    F = [[Fraction(x) for x in r] for r in V]
+    c = [_cross(F[1], F[2]), _cross(F[2], F[0]), _cross(F[0], F[1])]
+    det = _dot(F[0], c[0])
+    return [[x / det for x in ci] for ci in c]
+
+
+def exact_rescale(p, v0, o0, v1, o1):
+    """relative coordinates of p in cell (v0,o0), re-expressed in cell (v1,o1): exact Fractions."""
+    rec = _inv_rows(v0)
+    d = [Fraction(p[j]) - Fraction(o0[j]) for j in range(3)]
+    sp = [_dot(d, rec[i]) for i in range(3)]
+    return [sum(sp[i] * Fraction(v1[i][j]) for i in range(3)) + Fraction(o1[j]) for j in range(3)]
+
+
+class Shadow:
+    """what the objects must hold after each step (plain bookkeeping, independent of the Lean model)."""
+
+    def __init__(self):
+        self.boxes, self.systems = [], []
+
+    def apply(self, st):
+        d = st['do']
+        if d == 'newbox':
+            self.boxes.append({'v': st['v'], 'o': st['o']})
+        elif d == 'newsys':
+            self.systems.append({'box': st['box'], 'pbc': list(st['pbc']), 'pos': [list(p) for p in st['pos']]})
+        elif d == 'boxvects':
+            self.boxes[st['box']]['v'] = st['v']
+        elif d == 'boxorigin':
+            self.boxes[st['box']]['o'] = st['o']
+        elif d == 'boxset':
+            self.boxes[st['box']] = {'v': st['v'], 'o': st['o']}
+        elif d == 'sysboxset':
+            sy = self.systems[st['sys']]
+            old = self.boxes[sy['box']]
+            if st['scale']:
+                sy['pos'] = [exact_rescale(p, old['v'], old['o'], st['v'], st['o']) for p in sy['pos']]
+            self.boxes[sy['box']] = {'v': st['v'], 'o': st['o']}
+        elif d == 'pbcset':
+            self.systems[st['sys']]['pbc'] = list(st['pbc'])
+        elif d == 'pbcedit':
+            self.systems[st['sys']]['pbc'][st['axis']] = st['flag']
+        elif d == 'posedit':
+            self.systems[st['sys']]['pos'][st['i']] = list(st['p'])
+        elif d == 'posset':
+            self.systems[st['sys']]['pos'] = [list(p) for p in st['pos']]
+
+    def cell_of(self, s):
+        b = self.boxes[self.systems[s]['box']]
+        return b['v'], b['o']
+
+
+def gen_oracle_sel(rng, natoms, v, o):
+    """selectors with an unambiguous meaning (used where the clauses are evaluated on the selected pairs)."""
+    r = rng.random()
+    if r < 0.35:
+        return ['I', rng.randint(-natoms, natoms - 1), rng.choice(['py', 'np', 'np32'])]
+    if r < 0.55:
+        a = rng.choice([None, None, 0, 1, -2, -natoms])
+        b = rng.choice([None, None, natoms, natoms + 3, -1])
+        c = rng.choice([None, 1, 1, 2, -1]) if rng.random() < 0.5 else None
+        return ['S', a, b, c]
+    if r < 0.8:
+        k = rng.choice([1, 2, 2, 3, 4, natoms])
+        return ['L', [rng.randint(-natoms, natoms - 1) for _ in range(k)], rng.choice(['py', 'np'])]
+    k = rng.choice([1, 1, 2, natoms])
+    return ['P', [gen_point(rng, v, o) for _ in range(k)], rng.choice(['array', 'list', 'tuple', 'flat' if k == 1 else 'array',
+                                                                        'strided', 'readonly'])]
+
+
+def sel_positions(np, pos, sel):
+    """positions a (valid) selector denotes: plain numpy indexing of the shadow array / the explicit points."""
+    k = sel[0]
+    A = np.array(pos, dtype=float).reshape(-1, 3)
+    if k == 'I':
+        return [A[int(sel[1])].tolist()]
+    if k == 'S':
+        return A[slice(sel[1], sel[2], sel[3])].tolist()
+    if k == 'L':
+        return A[np.array(sel[1], dtype=np.int64)].tolist() if sel[1] else []
+    if k == 'P':
+        return [list(map(float, p)) for p in sel[1]]
+    raise ValueError(k)
+
+
+def expected_pairs(a, b):
+    """the pairing the property names: one-to-many, many-to-one, many-to-many; None = no pairing (refusal)."""
+    if len(a) == 1:
+        return [(a[0], q) for q in b]
+    if len(b) == 1:
+        return [(p, b[0]) for p in a]
+    if len(a) != len(b):
+        return None
+    return list(zip(a, b))
+
+
+def gen_history(rng, oracle=False):
+    """a history of 8-16 steps on 1-3 Box objects and 1-3 Systems; every value on the grid 2^k/64."""
+    k = gen_scale_exp(rng)
+    f = 2.0 ** k
+    sh = Shadow()
+    steps = []
+    gsel = gen_oracle_sel if oracle else (lambda r, n, v, o: gen_sel(r, n, v, o, k == 0))
+
+    def add(st):
+        steps.append(st)
+        sh.apply(st)
+
+    def cell(kind=None):
+        return gen_cell_scaled(rng, kind or rng.choice(CELL_KINDS), f)
+
+    def new_box():
+        v, o = cell()
+        add({'do': 'newbox', 'v': v, 'o': o})
+
+    def new_sys(b=None):
+        b = rng.randrange(len(sh.boxes)) if b is None else b
+        bx = sh.boxes[b]
+        n = rng.randint(1, 6)
+        add({'do': 'newsys', 'box': b, 'pbc': gen_pbc(rng), 'form': rng.choice(['tuple', 'list', 'array']),
+             'pos': [gen_point(rng, bx['v'], bx['o']) for _ in range(n)]})
+
+    def boxset_args():
+        via = rng.choice(BOXSET_VIAS)
+        v, o = cell('lammps' if via in ('lengths', 'hilos') else None)
+        if via in ('vects0', 'avect0'):
+            o = [0.0, 0.0, 0.0]
+        if via == 'hilos' and any((o[j] + v[j][j]) - o[j] != v[j][j] for j in range(3)):
+            via = 'lengths'
+        return via, v, o
+
+    def query():
+        r = rng.random()
+        if r < 0.3:          # module level, with the Box object
+            b = rng.randrange(len(sh.boxes))
+            bx = sh.boxes[b]
+            n0, n1 = _shape_pair(rng)
+            if oracle and (n0 == 0 or n1 == 0):
+                n0, n1 = 1, 3
+            add({'do': 'arr', 'kind': rng.choice(['dvect', 'dmag', 'both', 'both']), 'box': b, 'pbc': gen_pbc(rng),
+                 'pbcform': rng.choice(['tuple', 'list', 'array']),
+                 'pos0': [gen_point(rng, bx['v'], bx['o']) for _ in range(n0)],
+                 'pos1': [gen_point(rng, bx['v'], bx['o']) for _ in range(n1)],
+                 'form0': _form(rng, n0), 'form1': _form(rng, n1)})
+        elif r < 0.8:
+            si = rng.randrange(len(sh.systems))
+            v, o = sh.cell_of(si)
+            n = len(sh.systems[si]['pos'])
+            add({'do': 'sys', 'kind': rng.choice(['dvect', 'dmag', 'both', 'both']), 'sys': si,
+                 'sel0': gsel(rng, n, v, o), 'sel1': gsel(rng, n, v, o)})
+        elif r < 0.93:
+            a, b = rng.randrange(len(sh.systems)), rng.randrange(len(sh.systems))
+            add({'do': 'disp', 's0': a, 's1': b, 'ref': rng.choice(['final', 'initial', 'final', 'initial', None, 'default'])})
+        else:
+            add({'do': 'state', 'sys': rng.randrange(len(sh.systems))})
+
+    def mutate():
+        r = rng.random()
+        si = rng.randrange(len(sh.systems))
+        sy = sh.systems[si]
+        if r < 0.22:
+            if rng.random() < 0.35:
+                add({'do': 'pbcset', 'sys': si, 'pbc': gen_pbc(rng), 'form': rng.choice(['tuple', 'list', 'array'])})
+            else:
+                ax = rng.randrange(3)
+                flag = (not sy['pbc'][ax]) if rng.random() < 0.8 else bool(rng.getrandbits(1))
+                add({'do': 'pbcedit', 'sys': si, 'axis': ax, 'flag': flag, 'via': rng.choice(['item', 'alias', 'npbool'])})
+        elif r < 0.4:
+            b = rng.randrange(len(sh.boxes))
+            r2 = rng.random()
+            if r2 < 0.35:
+                add({'do': 'boxvects', 'box': b, 'v': cell()[0]})
+            elif r2 < 0.5:
+                add({'do': 'boxorigin', 'box': b, 'o': cell()[1], 'via': rng.choice(['attr', 'set'])})
+            else:
+                via, v, o = boxset_args()
+                add({'do': 'boxset', 'box': b, 'v': v, 'o': o, 'via': via})
+        elif r < 0.62:
+            via, v, o = boxset_args()
+            scale = rng.random() < 0.4
+            if scale and rng.random() < 0.5:          # the common use: a strained copy of the current cell
+                cv, co = sh.cell_of(si)
+                g = rng.choice([0.5, 2.0, 1.125, 0.875, 1.25])
+                v, o, via = [[x * g for x in rw] for rw in cv], list(co), 'vects'
+            add({'do': 'sysboxset', 'sys': si, 'v': v, 'o': o, 'scale': scale, 'via': via})
+            if scale:
+                # positions were recomputed in floating point: read back (tolerance), then back onto the grid
+                add({'do': 'state', 'sys': si, 'tolpos': True})
+                add({'do': 'posset', 'sys': si, 'via': rng.choice(['slice', 'attr', 'prop']),
+                     'pos': [gen_point(rng, v, o) for _ in sy['pos']]})
+        elif r < 0.85:
+            v, o = sh.cell_of(si)
+            i = rng.randrange(len(sy['pos']))
+            p = gen_point(rng, v, o)
+            if rng.random() < 0.3:                    # a small change of one coordinate
+                p = list(sy['pos'][i])
+                p[rng.randrange(3)] += rng.choice([-1, 1]) * f / 64
+            add({'do': 'posedit', 'sys': si, 'i': i, 'p': p, 'via': rng.choice(['pos', 'view', 'prop', 'coord'])})
+        else:
+            v, o = sh.cell_of(si)
+            add({'do': 'posset', 'sys': si, 'via': rng.choice(['slice', 'attr', 'prop']),
+                 'pos': [gen_point(rng, v, o) for _ in sy['pos']]})
+
+    for _ in range(rng.randint(1, 2)):
+        new_box()
+    new_sys()
+    if rng.random() < 0.6:
+        new_sys(b=sh.systems[0]['box'] if rng.random() < 0.5 else None)     # two Systems holding the SAME Box
+    query()
+    for _ in range(rng.randint(8, 16)):
+        r = rng.random()
+        if r < 0.04 and len(sh.boxes) < 3:
+            new_box()
+        elif r < 0.08 and len(sh.systems) < 3:
+            new_sys()
+        elif r < 0.5:
+            mutate()
+            if rng.random() < 0.7:
+                query()
+        else:
+            query()
+    add({'do': 'state', 'sys': rng.randrange(len(sh.systems))})
+    return {'op': 'seq', 'k': k, 'steps': steps}
+
+
+def _boxset_kwargs(st):
+    via, v, o = st['via'], st['v'], st['o']
+    if via == 'vects':
+        return {'vects': v, 'origin': o}
+    if via == 'vects0':
+        return {'vects': v}
+    if via == 'avect':
+        return {'avect': v[0], 'bvect': v[1], 'cvect': v[2], 'origin': o}
+    if via == 'avect0':
+        return {'avect': v[0], 'bvect': v[1], 'cvect': v[2]}
+    if via == 'lengths':
+        return {'lx': v[0][0], 'ly': v[1][1], 'lz': v[2][2], 'xy': v[1][0], 'xz': v[2][0], 'yz': v[2][1], 'origin': o}
+    if via == 'hilos':
+        return {'xlo': o[0], 'xhi': o[0] + v[0][0], 'ylo': o[1], 'yhi': o[1] + v[1][1], 'zlo': o[2], 'zhi': o[2] + v[2][2],
+                'xy': v[1][0], 'xz': v[2][0], 'yz': v[2][1]}
+    raise ValueError(via)
+
+
+class Live:
+    """the real objects of one history."""
+
+    def __init__(self):
+        self.boxes, self.systems = [], []
+
+    def step(self, st):
+        """-> ('ok', observation) | ('err', class).  Never raises for anything the implementation does."""
+        import numpy as np
+        import atomman as am
+        d = st['do']
+        if d == 'newbox':
+            return _call(lambda: self.boxes.append(_mk_box(am, st['v'], st['o'])))
+        if d == 'newsys':
+            def mk():
+                atoms = am.Atoms(pos=np.array(st['pos'], dtype=float).reshape(-1, 3))
+                self.systems.append(am.System(atoms=atoms, box=self.boxes[st['box']], pbc=_as_pbc(np, st['pbc'], st['form'])))
+            return _call(mk)
+        if d == 'boxvects':
+            return _call(lambda: setattr(self.boxes[st['box']], 'vects', np.array(st['v'], dtype=float)))
+        if d == 'boxorigin':
+            if st['via'] == 'attr':
+                return _call(lambda: setattr(self.boxes[st['box']], 'origin', list(st['o'])))
+            return _call(lambda: self.boxes[st['box']].set(origin=np.array(st['o'], dtype=float)))
+        if d == 'boxset':
+            return _call(lambda: self.boxes[st['box']].set(**_boxset_kwargs(st)))
+        if d == 'sysboxset':
+            kw = _boxset_kwargs(st)
+            if st['scale'] or st['via'] == 'vects':
+                kw['scale'] = bool(st['scale'])
+            return _call(lambda: self.systems[st['sys']].box_set(**kw))
+        if d == 'pbcset':
+            return _call(lambda: setattr(self.systems[st['sys']], 'pbc', _as_pbc(np, st['pbc'], st['form'])))
+        if d == 'pbcedit':
+            def ed():
+                s = self.systems[st['sys']]
+                flag = np.bool_(st['flag']) if st['via'] == 'npbool' else bool(st['flag'])
+                if st['via'] == 'alias':
+                    flags = s.pbc
+                    flags[st['axis']] = flag
+                else:
+                    s.pbc[st['axis']] = flag
+            return _call(ed)
+        if d == 'posedit':
+            def ed():
+                s = self.systems[st['sys']]
+                i, pnt = st['i'], np.array(st['p'], dtype=float)
+                if st['via'] == 'pos':
+                    s.atoms.pos[i] = pnt
+                elif st['via'] == 'view':
+                    s.atoms.view['pos'][i] = pnt
+                elif st['via'] == 'prop':
+                    s.atoms_prop('pos', index=i, value=pnt)
+                else:
+                    for j in range(3):
+                        s.atoms.pos[i, j] = pnt[j]
+            return _call(ed)
+        if d == 'posset':
+            def ps():
+                s = self.systems[st['sys']]
+                arr = np.array(st['pos'], dtype=float).reshape(-1, 3)
+                if st['via'] == 'slice':
+                    s.atoms.pos[:] = arr
+                elif st['via'] == 'attr':
+                    s.atoms.pos = arr
+                else:
+                    s.atoms_prop('pos', value=arr)
+            return _call(ps)
+        if d == 'state':
+            def rd():
+                s = self.systems[st['sys']]
+                return {'pbc': [bool(x) for x in s.pbc], 'vects': np.asarray(s.box.vects, dtype=float).ravel().tolist(),
+                        'origin': np.asarray(s.box.origin, dtype=float).ravel().tolist(),
+                        'pos': np.asarray(s.atoms.pos, dtype=float).ravel().tolist()}
+            return _call(rd)
+        if d == 'arr':
+            box = self.boxes[st['box']]
+            pbc = _as_pbc(np, st['pbc'], st['pbcform'])
+            a = _as_input(np, st['pos0'], st['form0']) if st['pos0'] else np.zeros((0, 3))
+            b = _as_input(np, st['pos1'], st['form1']) if st['pos1'] else np.zeros((0, 3))
+            keep = (np.array(a, dtype=float, copy=True), np.array(b, dtype=float, copy=True))
+            out = {}
+            if st['kind'] in ('dmag', 'both'):
+                out['dmag'] = _call(lambda: am.dmag(a, b, box, pbc))
+            if st['kind'] in ('dvect', 'both'):
+                out['dvect'] = _call(lambda: am.dvect(a, b, box, pbc))
+            out['inputs_kept'] = bool(np.array_equal(np.array(a, dtype=float), keep[0]) and
+                                      np.array_equal(np.array(b, dtype=float), keep[1]))
+            return 'ok', out
+        if d == 'sys':
+            s = self.systems[st['sys']]
+            a, b = _py_sel(np, st['sel0']), _py_sel(np, st['sel1'])
+            keep = [np.array(x, dtype=float, copy=True) if st[k][0] == 'P' else None for x, k in ((a, 'sel0'), (b, 'sel1'))]
+            out = {}
+            if st['kind'] in ('dmag', 'both'):
+                out['dmag'] = _call(lambda: s.dmag(a, b))
+            if st['kind'] in ('dvect', 'both'):
+                out['dvect'] = _call(lambda: s.dvect(a, b))
+            out['inputs_kept'] = all(kp is None or np.array_equal(np.array(x, dtype=float), kp) for x, kp in zip((a, b), keep))
+            return 'ok', out
+        if d == 'disp':
+            s0, s1 = self.systems[st['s0']], self.systems[st['s1']]
+            if st['ref'] == 'default':
+                return 'ok', {'disp': _call(lambda: am.displacement(s0, s1))}
+            return 'ok', {'disp': _call(lambda: am.displacement(s0, s1, box_reference=st['ref']))}
+        raise ValueError(d)
+
+
+def history_lines(case):
+    """model requests of one history: (lines, spans) with spans[i] = (first line, count) of step i."""
+    lines, spans = ['w reset'], []
+    for st in case['steps']:
+        d = st['do']
+        a = len(lines)
+        if d == 'newbox':
+            lines.append(f"w newbox {_flat(st['v'])} {cm.frs(st['o'])}")
+        elif d == 'newsys':
+            lines.append(f"w newsys {st['box']} {_b(st['pbc'])} {len(st['pos'])} {_flat(st['pos'])}".strip())
+        elif d == 'boxvects':
+            lines.append(f"w boxvects {st['box']} {_flat(st['v'])}")
+        elif d == 'boxorigin':
+            lines.append(f"w boxorigin {st['box']} {cm.frs(st['o'])}")
+        elif d == 'boxset':
+            lines.append(f"w boxset {st['box']} {_flat(st['v'])} {cm.frs(st['o'])}")
+        elif d == 'sysboxset':
+            lines.append(f"w sysboxset {st['sys']} {_flat(st['v'])} {cm.frs(st['o'])} {1 if st['scale'] else 0}")
+        elif d == 'pbcset':
+            lines.append(f"w pbcset {st['sys']} {_b(st['pbc'])}")
+        elif d == 'pbcedit':
+            lines.append(f"w pbcedit {st['sys']} {st['axis']} {1 if st['flag'] else 0}")
+        elif d == 'posedit':
+            lines.append(f"w posedit {st['sys']} {st['i']} {cm.frs(st['p'])}")
+        elif d == 'posset':
+            lines.append(f"w posset {st['sys']} {len(st['pos'])} {_flat(st['pos'])}".strip())
+        elif d == 'state':
+            lines.append(f"w state {st['sys']}")
+        elif d == 'arr':
+            base = (f"{st['box']} {_b(st['pbc'])} {len(st['pos0'])} {len(st['pos1'])} "
+                    f"{_flat(st['pos0'])} {_flat(st['pos1'])}").strip()
+            lines += ['w arr dvect ' + base, 'w arr dmag2 ' + base]
+        elif d == 'sys':
+            base = f"{st['sys']} {_sel_wire(st['sel0'])} {_sel_wire(st['sel1'])}"
+            lines += ['w sys dvect ' + base, 'w sys dmag2 ' + base]
+        elif d == 'disp':
+            ref = {None: 'None', 'default': 'final'}.get(st['ref'], st['ref'])
+            lines.append(f"w disp {ref} {st['s0']} {st['s1']}")
+        else:
+            raise ValueError(d)
+        spans.append((a, len(lines) - a))
+    return lines, spans
+
+
+def _cmp_sys(bad, prefix, who, name, out, obs, width):
+    """System.dvect / System.dmag result against the model reply (shared by the stateless and the history form)."""
+    import numpy as np
+    st, val = obs
+    if out == 'err:undefined':
+        return
+    if out.startswith('err:'):
+        if st != 'err' or 'err:' + val != out:
+            bad.append((f'{prefix}:{name}:error', f'{who}.{name}: model rejects with {out}, implementation gave {st} {val!r:.80}'))
+        return
+    if st == 'err':
+        bad.append((f'{prefix}:{name}:error', f'{who}.{name} raised {val}, model returns {out[:60]}'))
+        return
+    toks = out.split()
+    arr = np.asarray(val)
+    if toks[0] == 'sq':
+        want_shape = (3,) if width == 3 else ()
+        fr = [Fraction(x) for x in toks[1:]]
+    else:
+        k = int(toks[1])
+        want_shape = (k, 3) if width == 3 else (k,)
+        fr = [Fraction(x) for x in toks[2:]]
+    if arr.shape != want_shape:
+        bad.append((f'{prefix}:{name}:shape', f'{who}.{name} returned shape {arr.shape}, model {want_shape} ({toks[0]})'))
+        return
+    flat = arr.ravel().tolist()
+    if width == 3:
+        if not _exact_eq(flat, fr):
+            bad.append((f'{prefix}:{name}', f'{who}.dvect {flat} != model {[float(x) for x in fr]}'))
+    else:
+        if not (len(flat) == len(fr) and all(_sqrt_ok(x, m2) for x, m2 in zip(flat, fr))):
+            bad.append((f'{prefix}:{name}', f'{who}.dmag {flat} is not sqrt of model {[float(x) for x in fr]}'))
+
+
+def _cmp_arr(bad, prefix, who, name, out, obs, width):
+    """atomman.dvect / atomman.dmag (exact regime) against `w arr` replies."""
+    import numpy as np
+    st, val = obs
+    if out.startswith('err:'):
+        if st != 'err' or 'err:' + val != out:
+            bad.append((f'{prefix}:{name}:error', f'{who}: model rejects with {out}, implementation gave {st} {val!r:.80}'))
+        return
+    if st == 'err':
+        bad.append((f'{prefix}:{name}:error', f'{who} raised {val}, model returns {out[:60]}'))
+        return
+    fr = [Fraction(x) for x in out.split()]
+    arr = np.asarray(val)
+    want = (len(fr) // 3, 3) if width == 3 else (len(fr),)
+    if arr.shape != want:
+        bad.append((f'{prefix}:{name}:shape', f'{who} returned shape {arr.shape}, model {want}'))
+        return
+    flat = arr.ravel().tolist()
+    ok = _exact_eq(flat, fr) if width == 3 else all(_sqrt_ok(x, m2) for x, m2 in zip(flat, fr))
+    if not ok:
+        bad.append((f'{prefix}:{name}', f'{who} {flat} != model {[float(x) for x in fr]}' if width == 3 else
+                    f'{who} {flat} is not sqrt of model {[float(x) for x in fr]}'))
+
+
+def compare_history(case, outs, spans):
+    """run the history on the real objects, compare every step with the model; -> list of (key, message, step)."""
+    live, sh = Live(), Shadow()
+    bad = []
+    for i, (st, (a, k)) in enumerate(zip(case['steps'], spans)):
+        o = outs[a:a + k]
+        d = st['do']
+        prev_cell = sh.cell_of(st['sys']) if d == 'sysboxset' else None
+        prev_pos = [list(p) for p in sh.systems[st['sys']]['pos']] if d == 'sysboxset' else None
+        sh.apply(st)
+        if d == 'sysboxset' and st['scale']:
+            case.setdefault('_tol', {})[i + 1] = (prev_cell, prev_pos, st['v'], st['o'])
+        status, obs = live.step(st)
+        local = []
+        who = f"step {i} ({d})"
+        if status == 'err':
+            if not o[0].startswith('err:'):
+                local.append((f'seq:{d}:error', f'{who} raised {obs}, model accepts'))
+        elif d in ('newbox', 'newsys', 'boxvects', 'boxorigin', 'boxset', 'sysboxset', 'pbcset', 'pbcedit', 'posedit', 'posset'):
+            if not o[0].startswith('ok'):
+                local.append((f'seq:{d}:error', f'{who}: model says {o[0]}, implementation accepted'))
+        elif d == 'state':
+            parts = [x.split() for x in o[0].split('|')]
+            if len(parts) != 4:
+                local.append(('seq:state', f'{who}: model {o[0]}'))
+            else:
+                mp = [t == '1' for t in parts[0]]
+                if mp != obs['pbc']:
+                    local.append(('seq:state:pbc', f'{who}: System.pbc reads {obs["pbc"]}, model {mp}'))
+                if not _exact_eq(obs['vects'], [Fraction(x) for x in parts[1]]):
+                    local.append(('seq:state:vects', f'{who}: box.vects reads {obs["vects"]}, model {[float(Fraction(x)) for x in parts[1]]}'))
+                if not _exact_eq(obs['origin'], [Fraction(x) for x in parts[2]]):
+                    local.append(('seq:state:origin', f'{who}: box.origin reads {obs["origin"]}, model {[float(Fraction(x)) for x in parts[2]]}'))
+                mpos = [Fraction(x) for x in parts[3]]
+                if st.get('tolpos'):
+                    (pv, po), ppos, nv, no = case['_tol'][i]
+                    tol = rescale_tolerance(pv, po, ppos, nv, no, mpos)
+                    okp = len(mpos) == len(obs['pos']) and all(abs(Fraction(x) - m) <= tol for x, m in zip(obs['pos'], mpos))
+                else:
+                    okp = _exact_eq(obs['pos'], mpos)
+                if not okp:
+                    local.append(('seq:state:pos', f'{who}: atoms.pos reads {obs["pos"]}, model {[float(x) for x in mpos]}'))
+        elif d == 'arr':
+            if 'dvect' in obs:
+                _cmp_arr(local, 'seq:arr', f'{who} atomman.dvect', 'dvect', o[0], obs['dvect'], 3)
+            if 'dmag' in obs:
+                _cmp_arr(local, 'seq:arr', f'{who} atomman.dmag', 'dmag', o[1], obs['dmag'], 1)
+            if not obs['inputs_kept']:
+                local.append(('seq:arr:input-modified', f'{who}: the caller\'s position arrays were modified'))
+        elif d == 'sys':
+            if 'dvect' in obs:
+                _cmp_sys(local, 'seq:sys', f'{who} System', 'dvect', o[0], obs['dvect'], 3)
+            if 'dmag' in obs:
+                _cmp_sys(local, 'seq:sys', f'{who} System', 'dmag', o[1], obs['dmag'], 1)
+            if not obs['inputs_kept']:
+                local.append(('seq:sys:input-modified', f'{who}: the caller\'s position arrays were modified'))
+        elif d == 'disp':
+            _cmp_arr(local, 'seq:disp', f'{who} displacement(box_reference={st["ref"]!r})', 'disp', o[0], obs['disp'], 3)
+        bad += [(kk, m, i) for kk, m in local]
+        if status == 'err' or any(kk.endswith(':error') and d not in ('arr', 'sys', 'disp') for kk, _ in local):
+            break          # objects and model are out of step from here on
+    return bad
+
+
+def rescale_tolerance(pv, po, ppos, nv, no, mpos):
+    """bound on the rounding of box_set(scale=True): spos = (p-o).recip, p' = spos.vects' + o'."""
+    rec = _inv_rows(pv)
+    mrec = max(abs(x) for r in rec for x in r)
+    mdp = max([abs(Fraction(p[j]) - Fraction(po[j])) for p in ppos for j in range(3)] + [Fraction(0)])
+    mv = max(abs(Fraction(x)) for r in nv for x in r)
+    mo = max(abs(Fraction(x)) for x in no)
+    mp = max([abs(x) for x in mpos] + [Fraction(0)])
+    return Fraction(1, 2 ** 44) * (9 * mdp * mrec * mv + mo + mp)
 
 
 # ----------------------------------------------------------------------------------------
@@ -537,6 +1170,7 @@ def correspond(ctx):
     cases += [gen_arr_case(rng, 'tol') for _ in range(ctx.n(1000, 12000))]
     cases += [gen_sys_case(rng) for _ in range(ctx.n(1500, 20000))]
     cases += [gen_disp_case(rng) for _ in range(ctx.n(600, 8000))]
+    cases += [gen_history(rng) for _ in range(ctx.n(500, 6000))]
     for _ in range(ctx.n(200, 2000)):
         ch = lambda: None if rng.random() < 0.3 else rng.randint(-12, 12)
         cases.append({'op': 'slice', 'n': rng.randint(0, 9), 'a': ch(), 'b': ch(),
@@ -545,6 +1179,10 @@ def correspond(ctx):
     ties = [t for c in cases for t in c.get('_ties', [])]
     ctx.extra['tolerance_pairs'] = len(ties)
     ctx.extra['tolerance_pairs_exempt_as_ties'] = sum(ties)
+    hs = [c for c in cases if c['op'] == 'seq']
+    ctx.extra['histories'] = len(hs)
+    ctx.extra['history_steps'] = sum(len(c['steps']) for c in hs)
+    ctx.extra['scale_exponents_seen'] = sorted({c['k'] for c in hs})
     ctx.extra['pbc_settings_seen'] = sorted({''.join('1' if b else '0' for b in c['pbc']) for c in cases if 'pbc' in c})
 
 
@@ -646,75 +1284,80 @@ def _candidates(pbc):
     return list(itertools.product(*[([-1, 0, 1] if p else [0]) for p in pbc]))
 
 
-def oracle_pairs(ctx, case, stats):
-    """all clauses of the property for the pairs of one cell, on the real code."""
-    import numpy as np
-    import atomman as am
-    v, o, pbc = case['vects'], case['origin'], case['pbc']
-    p0s, p1s = case['p0'], case['p1']
-    box = _mk_box(am, v, o)
-    A, B = np.array(p0s, dtype=float), np.array(p1s, dtype=float)
-    pb = tuple(bool(b) for b in pbc)
-    dv = am.dvect(A, B, box, pb)
-    dm = am.dmag(A, B, box, pb)
-    exact = case['regime'] == 'exact'
-    g = Geo(v, o, p0s + p1s)
-    n = len(p0s)
-    S = max([abs(x) for r in v for x in r] + [abs(x) for p in p0s + p1s for x in p] + [1.0])
+STAT_KEYS = ('pairs', 'true_nearest_claimed', 'claimed_ortho', 'claimed_width', 'inside_no_claim',
+             'inside_no_claim_not_nearest', 'outside_not_nearest', 'enumeration_skipped', 'lattice_points_enumerated',
+             'one_to_many', 'many_to_one', 'many_to_many', 'refusals_checked', 'history_queries', 'history_steps',
+             'history_aborted', 'pairs_after_inplace_change')
+
+
+def new_stats():
+    return {k: 0 for k in STAT_KEYS}
+
+
+def clauses(ctx, stats, pre, label, v, o, pbc, pairs, dv, dm, exact, rep, claim=True):
+    """the property's clauses for result rows dv[k] (and distances dm[k]; either may be None) of the point
+    pairs `pairs` under the cell (v, o) and flags pbc, in exact integer arithmetic on the common power-of-two
+    scale of all the floats involved.  `label(k)` names the call for the message, `rep` is the replay record."""
+    pts = [q for pq in pairs for q in pq]
+    g = Geo(v, o, pts)
+    S = max([abs(x) for r in v for x in r] + [abs(float(x)) for q in pts for x in q])
     delta = U48 * S
     cands = _candidates(pbc)
-    tshift = case.get('translate')
-    if tshift is not None and exact:
-        T = np.array(tshift, dtype=float)
-        dv_t = am.dvect(A + T, B + T, box, pb)
-        if not np.array_equal(dv_t, dv):
-            k = int(np.argmax(np.abs(dv_t - dv).sum(axis=1)))
-            ctx.violate('translate', f'dvect changes under a common translation {tshift}: {dv[k].tolist()} -> {dv_t[k].tolist()}',
-                        {'op': 'oracle', 'case': case, 'pair': k})
-    for k in range(n):
-        P0, P1 = g.pts[k], g.pts[n + k]
+    for k in range(len(pairs)):
+        P0, P1 = g.pts[2 * k], g.pts[2 * k + 1]
         d0 = [P1[j] - P0[j] for j in range(3)]
-        rep = {'op': 'oracle', 'case': {**case, 'p0': [p0s[k]], 'p1': [p1s[k]]}}
         stats['pairs'] += 1
-        e = g.to_int(dv[k]) if exact else None
+        c2 = [(c, _dot(t, t)) for c in cands for t in [g.image(d0, c)]]
+        cbest = min(c2, key=lambda x: x[1])
+        if dv is None:
+            # only the scalar distance is available: it must be the length of the shortest candidate
+            m2 = Fraction(cbest[1], g.D * g.D)
+            okm = _sqrt_ok(dm[k], m2) if exact else \
+                abs(float(dm[k]) - math.sqrt(float(m2))) <= 2 * delta + 2.0 ** -50 * float(dm[k])
+            if not okm:
+                ctx.violate(pre + 'dmag-vs-min27', f'{label(k)} pbc={pbc} = {float(dm[k])!r} but the shortest of the candidates '
+                            f'(shift {cbest[0]}) has length {math.sqrt(float(m2))!r}', {**rep, 'pair': k})
+            continue
+        row = [float(x) for x in dv[k]]
+        e = g.to_int(row) if exact else None
         if exact and e is None:
-            ctx.violate('image-form', f'dvect({p0s[k]}, {p1s[k]}) = {dv[k].tolist()} is off the input grid: not a lattice image',
-                        rep)
+            ctx.violate(pre + 'image-form', f'{label(k)} = {row} is off the input grid: not a lattice image', {**rep, 'pair': k})
             continue
         if exact:
             nn = g.shift_of(e, d0)
         else:
-            ef = [Fraction(float(x)) * g.D for x in dv[k]]
+            ef = [Fraction(x) * g.D for x in row]
             nn = [Fraction(sum((ef[j] - d0[j]) * g.c[i][j] for j in range(3)), g.det) for i in range(3)]
             nn = [Fraction(round(x)) for x in nn]
             img = g.image(d0, [int(x) for x in nn])
             if any(abs(float(ef[j] - img[j]) / g.D) > delta for j in range(3)):
-                ctx.violate('image-form', f'dvect({p0s[k]}, {p1s[k]}) = {dv[k].tolist()} is not (p1-p0) + n.vects for integer n '
-                            f'(closest n = {[int(x) for x in nn]})', rep)
+                ctx.violate(pre + 'image-form', f'{label(k)} = {row} is not (p1-p0) + n.vects for integer n '
+                            f'(closest n = {[int(x) for x in nn]})', {**rep, 'pair': k})
                 continue
             e = img
         # clause 1: image with n_i in {-1,0,1}, n_i = 0 on non-periodic axes
         if any(x.denominator != 1 for x in nn) or any(abs(x) > 1 for x in nn) or \
                 any((not pbc[i]) and nn[i] != 0 for i in range(3)):
-            ctx.violate('image-form', f'dvect({p0s[k]}, {p1s[k]}) pbc={pbc}: {dv[k].tolist()} = (p1-p0) + n.vects with '
-                        f'n = {[str(x) for x in nn]}: not an admissible shift', rep)
+            ctx.violate(pre + 'image-form', f'{label(k)} pbc={pbc}: {row} = (p1-p0) + n.vects with '
+                        f'n = {[str(x) for x in nn]}: not an admissible shift', {**rep, 'pair': k})
             continue
         m = [int(x) for x in nn]
         e2 = _dot(e, e)
         # clause 2: not longer than any of the 27 candidates
-        c2 = [(c, _dot(t, t)) for c in cands for t in [g.image(d0, c)]]
-        cbest = min(c2, key=lambda x: x[1])
         slack = 0 if exact else int((8 * (math.sqrt(e2) / g.D + delta) * delta) * g.D * g.D) + 1
         if e2 > cbest[1] + slack:
-            ctx.violate('min27', f'dvect({p0s[k]}, {p1s[k]}) pbc={pbc} has squared length {e2 / g.D ** 2}, candidate shift '
-                        f'{cbest[0]} has {cbest[1] / g.D ** 2}', rep)
+            ctx.violate(pre + 'min27', f'{label(k)} pbc={pbc} has squared length {float(Fraction(e2, g.D ** 2))!r}, candidate shift '
+                        f'{cbest[0]} has {float(Fraction(cbest[1], g.D ** 2))!r}', {**rep, 'pair': k})
         # clause 3: scalar distance = length of the vector
         m2 = Fraction(e2, g.D * g.D)
-        okm = _sqrt_ok(dm[k], m2) if exact else abs(float(dm[k]) - math.sqrt(float(m2))) <= 2 * delta + 2.0 ** -50 * float(dm[k])
-        if not okm:
-            ctx.violate('dmag-vs-dvect', f'dmag({p0s[k]}, {p1s[k]}) = {float(dm[k])!r} but |dvect| = {math.sqrt(float(m2))!r}', rep)
+        if dm is not None:
+            okm = _sqrt_ok(dm[k], m2) if exact else \
+                abs(float(dm[k]) - math.sqrt(float(m2))) <= 2 * delta + 2.0 ** -50 * float(dm[k])
+            if not okm:
+                ctx.violate(pre + 'dmag-vs-dvect', f'{label(k).replace("dvect", "dmag")} = {float(dm[k])!r} but |dvect| = '
+                            f'{math.sqrt(float(m2))!r}', {**rep, 'pair': k})
         # clause 5: true nearest image
-        if not any(pbc):
+        if not any(pbc) or not claim:
             continue
         inside = g.in_cell(P0) and g.in_cell(P1)
         res = g.nearest(d0, e, m, pbc)
@@ -729,9 +1372,9 @@ def oracle_pairs(ctx, case, stats):
             stats['true_nearest_claimed'] += 1
             stats['claimed_ortho' if ortho else 'claimed_width'] += 1
             if e2 > best + slack:
-                ctx.violate('true-nearest', f'points in the cell ({"orthogonal cell" if ortho else "nearest image below half the smallest width"}), '
-                            f'dvect({p0s[k]}, {p1s[k]}) pbc={pbc} = {dv[k].tolist()} (|.|^2 = {e2 / g.D ** 2}) but the image with '
-                            f'n = {list(arg)} has |.|^2 = {best / g.D ** 2}', rep)
+                ctx.violate(pre + 'true-nearest', f'points in the cell ({"orthogonal cell" if ortho else "nearest image below half the smallest width"}), '
+                            f'{label(k)} pbc={pbc} = {row} (|.|^2 = {float(Fraction(e2, g.D ** 2))!r}) but the image with '
+                            f'n = {list(arg)} has |.|^2 = {float(Fraction(best, g.D ** 2))!r}', {**rep, 'pair': k})
         elif inside:
             stats['inside_no_claim'] += 1
             if e2 > best:
@@ -740,9 +1383,77 @@ def oracle_pairs(ctx, case, stats):
             stats['outside_not_nearest'] += 1
 
 
+def _shape_ok(np, val, rows, width, squeeze):
+    a = np.asarray(val)
+    if squeeze and rows == 1:
+        return a.shape == ((3,) if width == 3 else ())
+    return a.shape == ((rows, 3) if width == 3 else (rows,))
+
+
+def _rows(np, val, width):
+    a = np.asarray(val, dtype=float)
+    return a.reshape(-1, 3).tolist() if width == 3 else a.reshape(-1).tolist()
+
+
+def oracle_pairs(ctx, case, stats):
+    """all clauses of the property for the pairs of one cell, on the real code (module-level wrappers)."""
+    import numpy as np
+    import atomman as am
+    v, o, pbc = case['vects'], case['origin'], case['pbc']
+    p0s, p1s = case['p0'], case['p1']
+    box = _mk_box(am, v, o)
+    A = _as_input(np, p0s, case.get('form0', 'array'))
+    B = _as_input(np, p1s, case.get('form1', 'array'))
+    keep = (np.array(A, dtype=float, copy=True), np.array(B, dtype=float, copy=True))
+    pb = _as_pbc(np, pbc, case.get('pbcform', 'tuple'))
+    rdv = _call(lambda: am.dvect(A, B, box, pb))
+    rdm = _call(lambda: am.dmag(A, B, box, pb))
+    exact = case['regime'] == 'exact'
+    rep = {'op': 'oracle', 'case': case}
+    pairs = expected_pairs(p0s, p1s)
+    shapes = f'{len(p0s)} reference point(s) against {len(p1s)} point(s)'
+    if pairs is None:
+        stats['refusals_checked'] += 1
+        for name, r in (('dvect', rdv), ('dmag', rdm)):
+            if r != ('err', 'value'):
+                ctx.violate('refusal:lengths', f'am.{name} with {shapes} (neither one-to-many nor many-to-many) must raise '
+                            f'ValueError; it gave {r[0]} {str(r[1])[:120]!r}; cell {v}, pos_0 {p0s}, pos_1 {p1s}', rep)
+        return
+    for name, r in (('dvect', rdv), ('dmag', rdm)):
+        if r[0] == 'err':
+            ctx.violate('raises', f'am.{name} with {shapes} raised {r[1]}; cell {v} pbc={pbc} pos_0 {p0s} pos_1 {p1s}', rep)
+            return
+    for name, r, w in (('dvect', rdv, 3), ('dmag', rdm, 1)):
+        if not _shape_ok(np, r[1], len(pairs), w, False):
+            ctx.violate('shape', f'am.{name} with {shapes} returned shape {np.asarray(r[1]).shape}, expected '
+                        f'{(len(pairs), 3) if w == 3 else (len(pairs),)}', rep)
+            return
+    if not (np.array_equal(np.array(A, dtype=float), keep[0]) and np.array_equal(np.array(B, dtype=float), keep[1])):
+        ctx.violate('input-modified', f'am.dvect / am.dmag changed the position arrays handed in ({shapes}); pos_0 was {p0s}, '
+                    f'pos_1 was {p1s}', rep)
+    stats['one_to_many' if len(p0s) == 1 and len(p1s) > 1 else 'many_to_one' if len(p1s) == 1 and len(p0s) > 1
+          else 'many_to_many'] += 1
+    dv, dm = _rows(np, rdv[1], 3), _rows(np, rdm[1], 1)
+    tshift = case.get('translate')
+    if tshift is not None and exact:
+        T = np.array(tshift, dtype=float)
+        rt = _call(lambda: am.dvect(keep[0] + T, keep[1] + T, box, pb))
+        if rt[0] == 'err' or not np.array_equal(np.asarray(rt[1]), np.asarray(rdv[1])):
+            ctx.violate('translate', f'dvect changes under a common translation {tshift}: {dv} -> '
+                        f'{rt[1] if rt[0] == "err" else np.asarray(rt[1]).tolist()}; cell {v} pbc={pbc} pos_0 {p0s} pos_1 {p1s}', rep)
+    clauses(ctx, stats, '', lambda k: f'dvect({pairs[k][0]}, {pairs[k][1]}) [{shapes}, cell {v}]', v, o, pbc, pairs, dv, dm,
+            exact, rep)
+
+
+NEAR_TIE_EPS = [0.0, 1e-16, -1e-16, 1e-15, 1e-14, -1e-14, 1e-13, -1e-13, 1e-12, 1e-11, -1e-11, 1e-10, 1e-9, -1e-9, 1e-8,
+                1e-7, -1e-6]
+
+
 def _oracle_case(rng, regime, kind=None, inside=None):
+    shape = rng.choice(['mm', 'mm', 'mm', '1m', 'm1'])
     if regime == 'exact':
-        v, o = gen_cell(rng, kind or rng.choice(CELL_KINDS))
+        f = 2.0 ** gen_scale_exp(rng)
+        v, o = gen_cell_scaled(rng, kind or rng.choice(CELL_KINDS), f)
         n = rng.randint(1, 5)
         where = inside if inside is not None else rng.choice(['in', 'in', 'face', None])
         p0 = [gen_point(rng, v, o, where) for _ in range(n)]
@@ -755,81 +1466,205 @@ def _oracle_case(rng, regime, kind=None, inside=None):
                 s1 = [((s0[i] + rng.choice([-0.125, 0.0, 0.0, 0.125])) % 1.0) for i in range(3)]
                 p0.append(rel_to_cart(s0, v, o))
                 p1.append(rel_to_cart(s1, v, o))
-        tr = [rng.randint(-64, 64) / 8.0 for _ in range(3)] if rng.random() < 0.5 else None
+        if rng.random() < 0.08:          # exactly half a cell vector (or half a face diagonal) apart
+            h = [rng.choice([0, 0, 0.5, -0.5]) for _ in range(3)]
+            p1[0] = [p0[0][j] + sum(h[i] * v[i][j] for i in range(3)) for j in range(3)]
+        tr = [rng.randint(-64, 64) / 8.0 * f for _ in range(3)] if rng.random() < 0.5 else None
     else:
         v, o = gen_float_cell(rng)
         n = rng.randint(1, 4)
         lo, hi = (0.0, 1.0) if rng.random() < 0.7 else (-1.0, 2.0)
         pt = lambda: rel_to_cart([rng.uniform(lo, hi) for _ in range(3)], v, o)
         p0, p1 = [pt() for _ in range(n)], [pt() for _ in range(n)]
+        if rng.random() < 0.3:           # near ties: half a cell vector +- a ladder of relative offsets
+            i = rng.randrange(3)
+            eps = rng.choice(NEAR_TIE_EPS)
+            p1[0] = [p0[0][j] + (0.5 + eps) * v[i][j] for j in range(3)]
         tr = None
+    if shape == '1m':
+        p0 = p0[:1]
+    elif shape == 'm1':
+        p1 = p1[:1]
+    elif rng.random() < 0.04 and n >= 2:
+        p1 = p1 + [p1[0]] * rng.choice([1, 2])      # neither one-to-many nor many-to-many: must be refused
     pbc = gen_pbc(rng)
     if not any(pbc) and rng.random() < 0.7:
         pbc[rng.randrange(3)] = True
-    return {'regime': regime, 'vects': v, 'origin': o, 'pbc': pbc, 'p0': p0, 'p1': p1, 'translate': tr}
+    return {'regime': regime, 'vects': v, 'origin': o, 'pbc': pbc, 'p0': p0, 'p1': p1, 'translate': tr,
+            'form0': _form(rng, len(p0)), 'form1': _form(rng, len(p1)), 'pbcform': rng.choice(['tuple', 'list', 'array'])}
 
 
-def oracle_system(ctx, rng):
-    """System.dvect/dmag by index == am.dvect/dmag on the positions with the system's own box and pbc;
-    displacement == am.dvect atom by atom under the reference system's cell (all on the real code)."""
+def _sel_text(sel):
+    k = sel[0]
+    if k == 'I':
+        return str(sel[1])
+    if k == 'S':
+        return f'slice({sel[1]}, {sel[2]}, {sel[3]})'
+    if k == 'L':
+        return str(list(sel[1]))
+    return f'positions {sel[1]}'
+
+
+def check_history(ctx, case, stats, upto=None):
+    """run one history on the real objects; after every query evaluate the property's clauses against the values the
+    objects hold NOW (kept by `Shadow`), whatever happened before."""
+    import numpy as np
+    live, sh = Live(), Shadow()
+    pub = _public(case)
+    changed = False
+    for i, st in enumerate(case['steps']):
+        if upto is not None and i > upto:
+            break
+        d = st['do']
+        sh.apply(st)
+        status, obs = live.step(st)
+        stats['history_steps'] += 1
+        rep = {'op': 'history', 'case': pub, 'step': i}
+        hist = f'after {i} steps ({", ".join(s2["do"] for s2 in case["steps"][max(0, i - 3):i])}) '
+        if status == 'err':
+            stats['history_aborted'] += 1
+            ctx.notes.append(f'history step {i} ({d}) raised {obs}: rest of the history skipped')
+            return
+        if d in ('boxvects', 'boxorigin', 'boxset', 'sysboxset', 'pbcset', 'pbcedit', 'posedit', 'posset'):
+            changed = True
+            continue
+        if d in ('newbox', 'newsys', 'state'):
+            continue
+        stats['history_queries'] += 1
+        if d == 'arr':
+            bx = sh.boxes[st['box']]
+            v, o, pbc = bx['v'], bx['o'], st['pbc']
+            pairs = expected_pairs(st['pos0'], st['pos1'])
+            who = f"atomman.%s(pos_0={st['pos0']}, pos_1={st['pos1']}, Box object #{st['box']} holding vects {v}, pbc={pbc})"
+            squeeze = False
+        elif d == 'sys':
+            sy = sh.systems[st['sys']]
+            v, o = sh.cell_of(st['sys'])
+            pbc = sy['pbc']
+            a, b = sel_positions(np, sy['pos'], st['sel0']), sel_positions(np, sy['pos'], st['sel1'])
+            pairs = expected_pairs(a, b)
+            who = (f"System.%s({_sel_text(st['sel0'])}, {_sel_text(st['sel1'])}) of a System holding pbc={pbc}, "
+                   f"box.vects={v}, atoms.pos={sy['pos']}")
+            squeeze = True
+        else:
+            s0, s1 = sh.systems[st['s0']], sh.systems[st['s1']]
+            ref = 'final' if st['ref'] == 'default' else st['ref']
+            pairs = list(zip(s0['pos'], s1['pos'])) if len(s0['pos']) == len(s1['pos']) else None
+            rs = {'final': st['s1'], 'initial': st['s0']}.get(ref)
+            who = (f"displacement(system_0 pos={s0['pos']}, system_1 pos={s1['pos']}, box_reference={st['ref']!r}); reference "
+                   f"system holds " + (f"pbc={sh.systems[rs]['pbc']}, box.vects={sh.cell_of(rs)[0]}" if rs is not None else 'nothing'))
+            r = obs['disp']
+            if pairs is None:
+                stats['refusals_checked'] += 1
+                if r != ('err', 'value'):
+                    ctx.violate('history:refusal:natoms', hist + who + f": the systems have {len(s0['pos'])} and {len(s1['pos'])} "
+                                f'atoms, ValueError expected, got {r[0]} {str(r[1])[:120]!r}', rep)
+                continue
+            if r[0] == 'err':
+                ctx.violate('history:raises', hist + who + f' raised {r[1]}', rep)
+                continue
+            if not _shape_ok(np, r[1], len(pairs), 3, False):
+                ctx.violate('history:shape', hist + who + f' returned shape {np.asarray(r[1]).shape} for {len(pairs)} atoms', rep)
+                continue
+            rows = _rows(np, r[1], 3)
+            if rs is None:
+                for k2, (p, q) in enumerate(pairs):
+                    if not _exact_eq(rows[k2], [Fraction(q[j]) - Fraction(p[j]) for j in range(3)]):
+                        ctx.violate('history:displacement', hist + who + f' atom {k2}: {rows[k2]} is not the plain difference', rep)
+                        break
+            else:
+                v, o = sh.cell_of(rs)
+                clauses(ctx, stats, 'history:', lambda k2: hist + who + f' atom {k2}', v, o, sh.systems[rs]['pbc'], pairs, rows,
+                        None, True, rep, claim=False)
+                stats['pairs_after_inplace_change'] += len(pairs) if changed else 0
+            continue
+        # arr / sys
+        got = {n2: obs[n2] for n2 in ('dvect', 'dmag') if n2 in obs}
+        if pairs is None:
+            stats['refusals_checked'] += 1
+            for n2, r in got.items():
+                if r != ('err', 'value'):
+                    ctx.violate('history:refusal:lengths', hist + (who % n2) + f': neither one-to-many nor many-to-many, ValueError '
+                                f'expected, got {r[0]} {str(r[1])[:120]!r}', rep)
+            continue
+        okq = True
+        for n2, r in got.items():
+            w = 3 if n2 == 'dvect' else 1
+            if r[0] == 'err':
+                ctx.violate('history:raises', hist + (who % n2) + f' raised {r[1]}', rep)
+                okq = False
+            elif not _shape_ok(np, r[1], len(pairs), w, squeeze):
+                ctx.violate('history:shape', hist + (who % n2) + f' returned shape {np.asarray(r[1]).shape} for {len(pairs)} pair(s)', rep)
+                okq = False
+        if not obs['inputs_kept']:
+            ctx.violate('history:input-modified', hist + (who % 'dvect/dmag') + ' changed the position arrays handed in', rep)
+        if not okq or not pairs:
+            continue
+        dv = _rows(np, got['dvect'][1], 3) if 'dvect' in got else None
+        dm = _rows(np, got['dmag'][1], 1) if 'dmag' in got else None
+        clauses(ctx, stats, 'history:', lambda k2: hist + (who % 'dvect') + f' pair {k2} = ({pairs[k2][0]}, {pairs[k2][1]})',
+                v, o, pbc, pairs, dv, dm, True, rep, claim=len(pairs) <= 3)
+        stats['pairs_after_inplace_change'] += len(pairs) if changed else 0
+
+
+def oracle_refusal(ctx, rng, stats):
+    """documented refusals of displacement(): different numbers of atoms (1 vs N included, where the wrappers would
+    broadcast), unknown box_reference."""
     import numpy as np
     import atomman as am
-    v0, o0 = gen_cell(rng, rng.choice(CELL_KINDS))
-    v1, o1 = gen_cell(rng, rng.choice(CELL_KINDS))
-    n = rng.randint(2, 6)
-    pos0 = [gen_point(rng, v0, o0) for _ in range(n)]
-    pos1 = [gen_point(rng, v1, o1) for _ in range(n)]
-    pbc0, pbc1 = gen_pbc(rng), gen_pbc(rng)
-    s0 = _mk_system(am, np, v0, o0, pbc0, pos0)
-    s1 = _mk_system(am, np, v1, o1, pbc1, pos1)
-    case = {'sys0': {'vects': v0, 'origin': o0, 'pbc': pbc0, 'pos': pos0},
-            'sys1': {'vects': v1, 'origin': o1, 'pbc': pbc1, 'pos': pos1}}
-    i, j = rng.randrange(n), rng.randrange(n)
-    ctx.stats.case('oracle:system', (v0, o0, pbc0, pos0, i, j))
-    a = np.ravel(s0.dvect(i, j))      # values only: the squeeze is compared by the correspondence
-    b = am.dvect(np.array(pos0[i]), np.array(pos0[j]), s0.box, s0.pbc)[0]
-    if not np.array_equal(a, b):
-        ctx.violate('system-dvect', f'System.dvect({i},{j}) = {a.tolist()} differs from dvect of the two positions with the '
-                    f"system's box and pbc = {b.tolist()}", {'op': 'oracle-system', **case, 'i': i, 'j': j})
-    a = float(np.ravel(s0.dmag(i, j))[0])
-    b = float(am.dmag(np.array(pos0[i]), np.array(pos0[j]), s0.box, s0.pbc)[0])
-    c = float(np.sqrt((np.ravel(s0.dvect(i, j)) ** 2).sum()))
-    if a != b or abs(a - c) > 4e-16 * max(c, 1e-300) * 4:
-        ctx.violate('system-dmag', f'System.dmag({i},{j}) = {a!r}; dmag of the positions = {b!r}; |System.dvect| = {c!r}',
-                    {'op': 'oracle-system', **case, 'i': i, 'j': j})
-    for ref, sref in (('final', s1), ('initial', s0), (None, None)):
-        d = am.displacement(s0, s1, box_reference=ref)
-        for k in range(n):
-            if sref is None:
-                want = np.array(pos1[k]) - np.array(pos0[k])
-            else:
-                want = am.dvect(np.array(pos0[k]), np.array(pos1[k]), sref.box, sref.pbc)[0]
-            if not np.array_equal(d[k], want):
-                ctx.violate('displacement', f'displacement(box_reference={ref!r}) atom {k}: {d[k].tolist()} but the separation of '
-                            f'the two positions under that cell is {want.tolist()}',
-                            {'op': 'oracle-system', **case, 'ref': ref, 'atom': k})
-                break
+    f = 2.0 ** gen_scale_exp(rng)
+    v0, o0 = gen_cell_scaled(rng, rng.choice(CELL_KINDS), f)
+    v1, o1 = gen_cell_scaled(rng, rng.choice(CELL_KINDS), f)
+    n0 = rng.randint(1, 6)
+    same = rng.random() < 0.3
+    n1 = n0 if same else rng.choice([x for x in (1, 1, 2, n0 + 1, n0 + 3, max(1, n0 - 1)) if x != n0])
+    ref = rng.choice(['bogus', 'Final', 'INITIAL', '', 'none', 0, 1.5]) if same else \
+        rng.choice(['final', 'initial', None, 'default', 'final', 'initial'])
+    sys0 = {'vects': v0, 'origin': o0, 'pbc': gen_pbc(rng), 'pos': [gen_point(rng, v0, o0) for _ in range(n0)]}
+    sys1 = {'vects': v1, 'origin': o1, 'pbc': gen_pbc(rng), 'pos': [gen_point(rng, v1, o1) for _ in range(n1)]}
+    case = {'sys0': sys0, 'sys1': sys1, 'ref': ref}
+    ctx.stats.case('oracle:refusal', (n0, n1, ref, v0, v1), nontrivial=True)
+    check_refusal(ctx, case, stats)
+
+
+def check_refusal(ctx, case, stats):
+    import numpy as np
+    import atomman as am
+    sys0, sys1, ref = case['sys0'], case['sys1'], case['ref']
+    s0 = _mk_system(am, np, sys0['vects'], sys0['origin'], sys0['pbc'], sys0['pos'])
+    s1 = _mk_system(am, np, sys1['vects'], sys1['origin'], sys1['pbc'], sys1['pos'])
+    r = _call(lambda: am.displacement(s0, s1)) if ref == 'default' else _call(lambda: am.displacement(s0, s1, box_reference=ref))
+    stats['refusals_checked'] += 1
+    n0, n1 = len(sys0['pos']), len(sys1['pos'])
+    if r != ('err', 'value'):
+        why = f'the systems have {n0} and {n1} atoms' if n0 != n1 else f'box_reference={ref!r} is none of final/initial/None'
+        ctx.violate('refusal:natoms' if n0 != n1 else 'refusal:box-reference',
+                    f'displacement(system_0 with pos {sys0["pos"]}, system_1 with pos {sys1["pos"]}, box_reference={ref!r}): {why}, '
+                    f'ValueError expected; got {r[0]} ' + (f'an array of shape {np.asarray(r[1]).shape}' if r[0] == 'ok' else str(r[1])),
+                    {'op': 'refusal', 'case': case})
 
 
 def search(ctx, broken):
     rng = random.Random(ctx.seed * 7919 + 17)
     mult = 3 if broken else 1
-    stats = {k: 0 for k in ('pairs', 'true_nearest_claimed', 'claimed_ortho', 'claimed_width', 'inside_no_claim',
-                            'inside_no_claim_not_nearest', 'outside_not_nearest', 'enumeration_skipped',
-                            'lattice_points_enumerated')}
+    stats = new_stats()
     plan = []
     N = ctx.n(1500, 25000) * mult
     for it in range(N):
         kind = CELL_KINDS[it % len(CELL_KINDS)]
         plan.append(_oracle_case(rng, 'exact', kind, inside='in' if it % 3 else None))
-    for it in range(ctx.n(400, 6000) * mult):
+    for it in range(ctx.n(500, 7000) * mult):
         plan.append(_oracle_case(rng, 'tol'))
     for case in plan:
         ctx.stats.case('oracle:' + case['regime'], (case['vects'], case['origin'], case['pbc'], case['p0'], case['p1']),
                        nontrivial=any(case['pbc']))
         oracle_pairs(ctx, case, stats)
-    for _ in range(ctx.n(300, 4000) * mult):
-        oracle_system(ctx, rng)
+    for _ in range(ctx.n(350, 5000) * mult):
+        h = gen_history(rng, oracle=True)
+        ctx.stats.case('oracle:history', repr(h['steps']), nontrivial=True)
+        check_history(ctx, h, stats)
+    for _ in range(ctx.n(200, 2500) * mult):
+        oracle_refusal(ctx, rng, stats)
     ctx.extra['oracle'] = stats
     if stats['inside_no_claim_not_nearest']:
         ctx.notes.append(f"{stats['inside_no_claim_not_nearest']} in-cell pairs in strongly tilted cells where the 27-candidate "
@@ -840,12 +1675,20 @@ def search(ctx, broken):
 # ----------------------------------------------------------------------------------------
 def replay(ctx, payload):
     r = payload.get('replay', {})
+    stats = new_stats()
     if r.get('op') == 'oracle':
-        stats = {k: 0 for k in ('pairs', 'true_nearest_claimed', 'claimed_ortho', 'claimed_width', 'inside_no_claim',
-                                'inside_no_claim_not_nearest', 'outside_not_nearest', 'enumeration_skipped',
-                                'lattice_points_enumerated')}
         oracle_pairs(ctx, r['case'], stats)
         print('replay oracle:', 'still fails' if ctx.violations else 'passes now', stats)
+        return
+    if r.get('op') == 'history':
+        check_history(ctx, r['case'], stats, upto=r.get('step'))
+        print(f"replay history (steps 0..{r.get('step')}):", 'still fails' if ctx.violations else 'passes now')
+        for f in ctx.violations[:3]:
+            print('  ', f.what[:600])
+        return
+    if r.get('op') == 'refusal':
+        check_refusal(ctx, r['case'], stats)
+        print('replay refusal:', 'still fails' if ctx.violations else 'passes now')
         return
     cases = []
     if 'case' in r:
@@ -856,12 +1699,11 @@ def replay(ctx, payload):
         nb = run_cases(ctx, cases)
         print(f'replay: {len(cases)} stored case(s), {nb} disagreement(s) between implementation and model')
         for c in cases:
-            if c['op'] == 'arr' and c['pos0'] and c['pos1'] and len(c['pos0']) == len(c['pos1']):
+            if c['op'] == 'arr' and c['pos0'] and c['pos1']:
                 oracle_pairs(ctx, {'regime': c['regime'], 'vects': c['vects'], 'origin': c['origin'], 'pbc': c['pbc'],
-                                   'p0': c['pos0'], 'p1': c['pos1']}, {k: 0 for k in (
-                                       'pairs', 'true_nearest_claimed', 'claimed_ortho', 'claimed_width', 'inside_no_claim',
-                                       'inside_no_claim_not_nearest', 'outside_not_nearest', 'enumeration_skipped',
-                                       'lattice_points_enumerated')})
+                                   'p0': c['pos0'], 'p1': c['pos1'], 'form0': c['form0'], 'form1': c['form1']}, stats)
+            elif c['op'] == 'seq':
+                check_history(ctx, c, stats)
     else:
         search(ctx, True)
 
